@@ -355,7 +355,7 @@ def combine_realms(scns, seed, prop):
             steps.append(queues[r].pop(0))
         victim = rnd.randrange(k)
         held = [r for r, sc in enumerate(parts) if "retryseq" in sc["id"] or ".stall" in sc["id"]]
-        if held and rnd.random() < 0.8:
+        if held:
             victim = rnd.choice(held)
         rm = {"op": "rmrealm", "r": victim}
         pos = rnd.randrange(len(steps) // 2, len(steps) + 1)
@@ -368,10 +368,10 @@ def combine_realms(scns, seed, prop):
                 stalled = True
             if st.get("r") == victim and st["op"] == "yield" and stalled:
                 cands.append(si + 1)
-        if cands and rnd.random() < 0.8:
+        if cands and (held or rnd.random() < 0.8):
             pos = max(cands) if rnd.random() < 0.7 else rnd.choice(cands)
         # ... and while somebody joins another realm, who must be served without delay
-        if rnd.random() < 0.6:
+        if (held and cands) or rnd.random() < 0.6:
             other = rnd.choice([r for r in range(k) if r != victim])
             rm["with"] = {"op": "join", "r": other, "s": "r%dzj" % other,
                           "join": {"authid": "u1", "color": "", "feats": [], "local": True, "q": 0}}
